@@ -1,0 +1,119 @@
+//go:build verif
+
+package sms2fa
+
+// Contracts for /verif (contract-based deductive verification of the real
+// code). Comment-only: no code; visible only with the build tag "verif".
+//
+// Ghost state riding on the session key sms_secret: the account (sms_pid) and phone
+// number (sms_number) the code currently in the session was generated for and sent to.
+// Session invariant every writer of sms_pending / sms_secret must preserve (C02): in a
+// session that names no user, a parked login and a code belong to the same account.
+// (A session that names a user never falls back to the parked login. A context pid only
+// exists when this response's session names that user: it is set from the session's uid
+// or by the remember middleware, which writes uid itself. Outside the login handlers a
+// context user is loaded from that pid - assumption ctx_user_is_session_user below.)
+//@ spec named(r) := ctxpid(r) != nil || sess(r, "uid") != ""
+//@ spec named_after(r) := ctxpid(r) != nil || sess_after(r, "uid") != ""
+//@ spec ctx_user_is_session_user(r) := ctxuser(r) != nil ==> named(r)
+//@ spec SmsInv(r) := (sess_has(r, SessionSMSPendingPID) && sess_has(r, SessionSMSSecret) && !named(r)) ==>
+//@        ghost(r, "sms_pid") == sess(r, SessionSMSPendingPID)
+//@ spec SmsInvAfter(r) := (sess_has_after(r, SessionSMSPendingPID) && sess_has_after(r, SessionSMSSecret) && !named_after(r)) ==>
+//@        ghost_after(r, "sms_pid") == sess_after(r, SessionSMSPendingPID)
+//@
+//@ func generateRandomCode
+//@   property C02
+//@   option summary callers use this contract, not the body
+//@   option trusted body not verified (six random decimal digits through a strings.Builder loop)
+//@   ensures some_code: true
+//@
+//@ func (*SMS).SendCodeToUser
+//@   property C02 C13 C18
+//@   ghost sms_pid at Sess.Put(SessionSMSSecret, _) := pid
+//@   ghost sms_number at Sess.Put(SessionSMSSecret, _) := number
+//@   -- the code put into the session is the code sent, to the number given
+//@   ensures[C02,C13] sends_what_it_stores: each SMS.Send(?num, ?code) => num == number &&
+//@       (before Sess.Put(SessionSMSSecret, ?c) :: c == code)
+//@   ensures[C02,C13] secret_only_with_send: each Sess.Put(SessionSMSSecret, _) => after SMS.Send(_, _)
+//@   ensures[C02,C13] ratelimit_silent: result == errSMSRateLimit ==> (!emits Sess.Put(_, _) && !emits SMS.Send(_, _))
+//@   ensures[C02,C13] keys: each Sess.Put(?k, _) => k == SessionSMSLast || k == SessionSMSSecret
+//@   ensures[C18] no_panic: !panics
+//@
+//@ func (*SMS).HijackAuth
+//@   property C01 C02
+//@   requires SmsInv(r)
+//@   ensures[C02] hijack_parks: (!handled && ctxuser(r) != nil && len(SMSPhoneNumber(ctxuser(r))) != 0 && !panics) ==>
+//@       ((result.0 || result.1 != nil) && (emits Sess.Put(SessionSMSPendingPID, ?p) :: p == PID(ctxuser(r))))
+//@   ensures[C02,C01] never_logs_in: each Sess.Put(?k, ?v) => k == SessionSMSLast || k == SessionSMSSecret || (k == SessionSMSPendingPID && v == PID(ctxuser(r)) && !handled)
+//@   ensures[C02] no_factor_no_effect: (ctxuser(r) != nil && len(SMSPhoneNumber(ctxuser(r))) == 0) ==> (!emits Sess.Put(_, _) && !emits Redirect(_) && !emits SMS.Send(_, _))
+//@   -- the parked login and the code left in the session belong to the same account
+//@   ensures[C02] sms_binding_inv: SmsInvAfter(r)
+//@   ensures[C02] code_goes_to_own_number: each SMS.Send(?num, _) => num == SMSPhoneNumber(ctxuser(r))
+//@
+//@ func (*SMSValidator).Post
+//@   property C01 C02 C03 C04 C12 C13 C18
+//@   requires SmsInv(r) && ctx_user_is_session_user(r)
+//@   -- C01/C02: a login is completed only on the validate page, for the logged-in user or - when
+//@   -- nobody is logged in - for the account parked in sms_pending, against one of that account's
+//@   -- unused recovery codes or the code in the session, which was generated for that account
+//@   ensures[C01,C02,C12,C13] second_factor_guard: each Sess.Put("uid", ?v) => s.Page == PageSMSValidate &&
+//@       before Body.Read(_) -> (?vals, ?re) :: re == nil &&
+//@         ite(ctxuser(r) != nil,
+//@             v == PID(ctxuser(r)) && sms_factor_ok(ctxuser(r), vals, r),
+//@             before Store.Load(?p) -> (?u, ?le) :: le == nil && v == PID(u) && sms_factor_ok(u, vals, r) &&
+//@               (len(val(vals, "GetRecoveryCode")) != 0 || named(r) || ghost(r, "sms_pid") == v) &&
+//@               (p == ite(ctxpid(r) != nil, asstring(ctxpid(r)), sess(r, "uid")) ||
+//@                (p == sess(r, SessionSMSPendingPID) && sess_has(r, SessionSMSPendingPID) &&
+//@                 (ite(ctxpid(r) != nil, asstring(ctxpid(r)), sess(r, "uid")) == "" ||
+//@                  (before Store.Load(_) -> (_, ?e0) :: e0 == ErrUserNotFound)))))
+//@   ensures[C01,C02] session_keys: (each Sess.Put("uid", _) => after Sess.Put(Session2FA, "sms") && after Sess.Del("halfauth") && after Sess.Del(SessionSMSPendingPID)) &&
+//@       (each Sess.Put(?k, _) => k == "uid" || k == Session2FA || k == SessionSMSLast || k == SessionSMSSecret)
+//@   -- C12: the SMS code is spent by the login it enables
+//@   ensures[C12] sms_code_spent: each Sess.Put("uid", _) => after Sess.Del(SessionSMSSecret)
+//@   ensures[C02] sms_binding_inv: SmsInvAfter(r)
+//@   -- C03: the step that completes the login consults the lock/confirm veto
+//@   ensures[C03] login_veto: each Sess.Put("uid", ?v) =>
+//@       before Fire("Before", EventAuth, ?cu, _, _) -> (?hd, ?e) :: hd == false && e == nil && PID(cu) == v
+//@   -- C04: a wrong code is reported as an authentication failure
+//@   ensures[C04] fail_reported: each Respond(_, _, ?data) => maphas(data, DataValidation) ==>
+//@       before Fire("After", EventAuthFail, ?cu, _, _) :: cu != nil
+//@   ensures[C04] correct_not_failure: each Fire(_, EventAuthFail, _, _, _) => !emits Sess.Put("uid", _)
+//@   -- C13: what is saved is the request's own user; enrolment takes the number parked in the
+//@   -- session and needs the session's code; removal needs the code or an unused recovery code
+//@   ensures[C13] owner_only: each Store.Save(?sv) -> _ =>
+//@       ite(ctxuser(r) != nil, sv == ctxuser(r), before Store.Load(?p) -> (?u, ?le) :: le == nil && u == sv)
+//@   ensures[C13] enrol_needs_code: each Store.Save(?sv) -> _ => (s.Page == PageSMSConfirm) ==>
+//@       (sess_has(r, SessionSMSNumber) && SMSPhoneNumber(sv) == sess(r, SessionSMSNumber) &&
+//@        sess_has(r, SessionSMSSecret) && sess(r, SessionSMSSecret) != "" &&
+//@        (before Body.Read(_) -> (?vals, ?re) :: re == nil && val(vals, "GetCode") == sess(r, SessionSMSSecret)))
+//@   ensures[C13] enrol_code_for_number: each Store.Save(?sv) -> _ => (s.Page == PageSMSConfirm) ==>
+//@       ghost(r, "sms_number") == sess(r, SessionSMSNumber)
+//@   ensures[C13] authorisation_spent: each Store.Save(_) -> ?e => (s.Page == PageSMSConfirm && e == nil && result == nil) ==>
+//@       (after Sess.Del(Session2FAAuthed) && after Sess.Del(SessionSMSSecret) && after Sess.Del(SessionSMSNumber))
+//@   ensures[C18] no_panic: !panics
+//@   ensures[C18] save_error_outcome: each Store.Save(_) -> ?e => e != nil ==> (result == e && !emits Sess.Put("uid", _))
+//@
+//@ spec sms_recovery_ok(u, vals) :=
+//@        (emits Store.Save(?sv) -> ?e :: e == nil && sv == u && after Sess.Put("uid", _)) &&
+//@        (exists i int :: 0 <= i && i < str_split_len(RecoveryCodes(u), ",") &&
+//@            hash_ok(str_split(RecoveryCodes(u), ",")[i], val(vals, "GetRecoveryCode")))
+//@ spec sms_factor_ok(u, vals, r) :=
+//@        ite(len(val(vals, "GetRecoveryCode")) != 0, sms_recovery_ok(u, vals),
+//@            sess_has(r, SessionSMSSecret) && sess(r, SessionSMSSecret) != "" && val(vals, "GetCode") == sess(r, SessionSMSSecret))
+//@
+//@ func (*SMS).PostSetup
+//@   property C13 C02
+//@   requires SmsInv(r) && ctx_user_is_session_user(r)
+//@   ensures[C13] nothing_saved: !emits Store.Save(_) && (each Sess.Put(?k, _) => k == SessionSMSNumber || k == SessionSMSLast || k == SessionSMSSecret)
+//@   ensures[C13] code_goes_to_posted_number: each SMS.Send(?num, _) => before Sess.Put(SessionSMSNumber, ?n) :: n == num
+//@   ensures[C02] sms_binding_inv: SmsInvAfter(r)
+//@
+//@ func (*SMS).Setup
+//@   property C13 C02
+//@   ensures[C13] routes_protected: each Router.Register(_, ?p, ?h) =>
+//@       ((p == "/2fa/sms/setup" || p == "/2fa/sms/confirm") ==>
+//@           prefixof(ite(s.Config.Modules.TwoFactorEmailAuthRequired,
+//@                        "MW2(reqs=1,mountPathed=true)>EmailVerify.Wrap>ErrorHandler.Wrap>(*SMS",
+//@                        "MW2(reqs=1,mountPathed=true)>ErrorHandler.Wrap>(*SMS"), layers(h))) &&
+//@       (p == "/2fa/sms/remove" ==> prefixof("MW2(reqs=1,mountPathed=true)>ErrorHandler.Wrap>(*SMSValidator).", layers(h)))
+//@   ensures[C02] hijacker_registered: result == nil ==> emits Events.Register("Before", EventAuthHijack, ?h) :: fname(h) == "(*SMS).HijackAuth"
